@@ -7,7 +7,7 @@ KEY_SETMARK = "setmark-child-no-end-rules"
 def classify(line):
     # known finding: probes of a set-endpoint-mark case that are in neither endpoint set but match the prefix of a
     # bin with a child chain; the driver puts exactly those probes into a case of their own and tags it.
-    if "setmark:unknown-probe-captured-by-child" in line.get("tags") or []:
+    if "setmark:unknown-probe-captured-by-child" in (line.get("tags") or []):
         return KEY_SETMARK
     return None
 
